@@ -1,4 +1,4 @@
-import LenaModel.Model.C19
+import LenaModel.Model.C19Spec
 /-! # C19 — lemmas: the bookkeeping of `output.changed` over the abstract file system
 
 Everything here is about the executable model `LenaModel/Model/C19.lean` (the definitions that
@@ -43,12 +43,6 @@ theorem ClockInv.put {w : World C} (h : ClockInv w) (p : String) (c : C) (e : Ev
   by_cases hqp : q = p
   · subst hqp; simp at hq; subst hq; simp
   · rw [put_fs_ne _ _ _ hqp] at hq; have := h q f hq; simp; omega
-
-/-- what a `Write` leaves in the file: the new text, except that `existing_unchanged` keeps an existing file -/
-def effective (mode : WMode) (old : Option (File C)) (new : C) : C :=
-  match mode, old with
-  | .existingUnchanged, some f => f.content
-  | _, _ => new
 
 theorem effective_cases (mode : WMode) (old : Option (File C)) (new : C) :
     effective mode old new = new ∨ ∃ f, old = some f ∧ effective mode old new = f.content := by
@@ -127,8 +121,6 @@ theorem writeCore_cases (mode : WMode) (p : String) (c : C) (w : World C) (chg :
 
 /-! ## the converters -/
 
-def depContents (fs : FS C) (ps : List String) : List (Option C) := ps.map fun p => (fs p).map (·.content)
-
 theorem latexCore_launch (conv : Conv C) (lo : Bool) (texP pdfP : String) (w : World C) (chg : Option Bool) (tf : File C)
     (ht : w.fs texP = some tf) (h : chg = some true ∨ lo = true ∨ w.fs pdfP = none) :
     latexCore conv lo texP pdfP w chg
@@ -158,33 +150,8 @@ theorem pngCore_skip (conv : Conv C) (pdfP pngP : String) (w : World C) (h : (w.
 
 /-! ## one unit: source files, the `.tex` file, the pdf and the image -/
 
-/-- the files of one plot (or of one group of plots): the CSV files, the `.tex` file that names them, the pdf
-rendered from them and the image converted from the pdf -/
-structure FUnit where
-  csvs : List String
-  tex : String
-  pdf : String
-  png : String
-
 def FUnit.Distinct (u : FUnit) : Prop :=
   u.tex ∉ u.csvs ∧ u.pdf ∉ u.csvs ∧ u.png ∉ u.csvs ∧ u.tex ≠ u.pdf ∧ u.tex ≠ u.png ∧ u.pdf ≠ u.png
-
-/-- `LaTeXToPDF` then `PDFToPNG` on the value of a unit whose incoming `output.changed` is `c`: the world and
-the `output.changed` of the yielded value (`none`: the LaTeX command failed, nothing is yielded) -/
-def convCore (conv : Conv C) (lo po : Bool) (u : FUnit) (w : World C) (c : Option Bool) :
-    Except Exc (World C × Option Bool) :=
-  match latexCore conv lo u.tex u.pdf w c with
-  | .error e => .error e
-  | .ok (w3, _, false) => .ok (w3, none)
-  | .ok (w3, c3, true) =>
-    let r := pngCore conv po u.pdf u.png w3 (some c3)
-    .ok (r.1, some r.2)
-
-/-- second `Write` (the `.tex` file), `LaTeXToPDF`, `PDFToPNG` -/
-def downCore (conv : Conv C) (m2 : WMode) (lo po : Bool) (u : FUnit) (ntex : C) (w : World C) (c1 : Option Bool) :
-    Except Exc (World C × Option Bool) :=
-  let r2 := writeCore m2 u.tex ntex w c1
-  convCore conv lo po u r2.1 r2.2
 
 theorem convCore_launch (conv : Conv C) (lo po : Bool) (u : FUnit) (w : World C) (c : Option Bool) (tf : File C)
     (hd : u.Distinct) (hclk : ClockInv w) (ht : w.fs u.tex = some tf)
@@ -420,12 +387,6 @@ theorem down_of_source (conv : Conv C) (m2 : WMode) (lo po : Bool) (u : FUnit) (
 
 /-! ## one plot: `Write` (csv), `Write` (tex), `LaTeXToPDF`, `PDFToPNG` -/
 
-/-- the bookkeeping of one plot whose CSV file is `pc` -/
-def sepCore (conv : Conv C) (m1 m2 : WMode) (lo po : Bool) (u : FUnit) (pc : String) (ncsv ntex : C) (w : World C) :
-    Except Exc (World C × Option Bool) :=
-  let r1 := writeCore m1 pc ncsv w none
-  downCore conv m2 lo po u ntex r1.1 r1.2
-
 theorem effective_deps (conv : Conv C) (u : FUnit) (fs : FS C) (m2 : WMode) (ntex : C)
     (hinv : UnitInv conv u fs) (hdeps : conv.depsOf ntex = u.csvs) :
     conv.depsOf (effective m2 (fs u.tex) ntex) = u.csvs := by
@@ -489,20 +450,6 @@ theorem mfCall_filetype (ow : Bool) (ms : List (MFKey × Tpl)) (name : Option St
   induction ms with
   | nil => intro acc; rfl
   | cons m rest ih => intro acc; rw [List.foldl_cons, ih]; exact mfStep_filetype ow name acc.1 m
-
-/-- `context.output` of a plot after `ToCSV` and `MakeFilename` -/
-def plotCtx (cfg : Cfg) (ms : List (MFKey × Tpl)) (pl : Plot) : OutCtx :=
-  (mfCall cfg.mf.overwrite ms pl.name { filetype := some "csv" }).1
-
-/-- the file names that the two `Write`s and the two converters compute for a plot: its unit and its CSV path -/
-def plotUnit (cfg : Cfg) (ms : List (MFKey × Tpl)) (pl : Plot) : Except Exc (FUnit × String) :=
-  let o1 := plotCtx cfg ms pl
-  match wmfCore cfg.outdir "output" o1.dirname o1.filename o1.fileext (some "csv") with
-  | .error e => .error e
-  | .ok (_, fn, _, pc) =>
-    match wmfCore cfg.outdir "output" o1.dirname (some fn) (some "tex") (some "tex") with
-    | .error e => .error e
-    | .ok (_, _, _, pt) => .ok (⟨[pc], pt, pdfPathOf pt, pngPathOf (pdfPathOf pt) "png"⟩, pc)
 
 theorem mfStep_changed (ow : Bool) (name : Option String) (o : OutCtx) (m : MFKey × Tpl) :
     (mfStep ow name o m).1.changed = o.changed := by
@@ -639,9 +586,6 @@ theorem runPlot_eq_sepCore (conv : Conv C) (cfg : Cfg) (ms : List (MFKey × Tpl)
 
 
 /-! ## one plot, pipeline level -/
-
-/-- all files of a unit -/
-def FUnit.paths (u : FUnit) : List String := u.csvs ++ [u.tex, u.pdf, u.png]
 
 theorem FUnit.mem_paths {u : FUnit} {q : String} : q ∈ u.paths ↔ q ∈ u.csvs ∨ q = u.tex ∨ q = u.pdf ∨ q = u.png := by
   simp [FUnit.paths]
@@ -798,23 +742,6 @@ theorem runPlots_fresh (conv : Conv C) (cfg : Cfg) (ms : List (MFKey × Tpl)) (t
 
 /-! ## a group of plots: one combined `.tex` / pdf / image -/
 
-/-- `MapGroup(ToCSV, MakeFilename, Write)` on the members, bookkeeping level: every member `(path, text)` is
-written with an unset incoming `output.changed`; the outgoing flags are collected -/
-def membersCore (m1 : WMode) : World C → List (String × C) → World C × List (Option Bool)
-  | w, [] => (w, [])
-  | w, (p, c) :: rest =>
-    let r := writeCore m1 p c w none
-    let rr := membersCore m1 r.1 rest
-    (rr.1, r.2 :: rr.2)
-
-/-- the bookkeeping of a group: the members' `Write`s, the combination of their flags by `group_plots` /
-`_update_with_group` (`group_changed_after_mapgroup`: true iff a member was rewritten), then the second `Write`
-and the converters on the combined value -/
-def grpCore (conv : Conv C) (m1 m2 : WMode) (lo po : Bool) (u : FUnit) (members : List (String × C)) (ntex : C)
-    (w : World C) : Except Exc (World C × Option Bool) :=
-  let r := membersCore m1 w members
-  downCore conv m2 lo po u ntex r.1 (some (r.2.any (· == some true)))
-
 theorem membersCore_spec (m1 : WMode) :
     ∀ (members : List (String × C)) (w : World C), (members.map (·.1)).Nodup → ClockInv w →
       let r := membersCore m1 w members
@@ -865,9 +792,6 @@ theorem membersCore_spec (m1 : WMode) :
 
 /-! ### the group pipeline is `grpCore` on the resolved file names -/
 
-/-- a context without its `changed` key (file names never depend on it) -/
-def nm (o : OutCtx) : OutCtx := { o with changed := none }
-
 theorem mfStep_nm (ow : Bool) (name : Option String) (o : OutCtx) (m : MFKey × Tpl) :
     nm (mfStep ow name o m).1 = (mfStep ow name (nm o) m).1 := by
   obtain ⟨k, t⟩ := m
@@ -905,29 +829,6 @@ theorem updateWithGroup_nm (o : OutCtx) (a b : List OutCtx) (old : OutCtx) (h : 
   unfold updateWithGroup
   simp only [nm, updOut, diffOut, interOut, h1, h2, h3, h4, h5, h6, h7]
   cases combineChanged o.changed (a.map (·.changed)) <;> cases combineChanged o.changed (b.map (·.changed)) <;> rfl
-
-/-- the names that `ToCSV → MakeFilename → Write` give to a member: its context (without `changed`) and its
-CSV path -/
-def memberNamed (cfg : Cfg) (ms : List (MFKey × Tpl)) (pl : Plot) : Except Exc (OutCtx × String) :=
-  match wmfCore cfg.outdir "output" (plotCtx cfg ms pl).dirname (plotCtx cfg ms pl).filename
-      (plotCtx cfg ms pl).fileext (some "csv") with
-  | .error e => .error e
-  | .ok (_, fn, fe, pc) =>
-    .ok ({ plotCtx cfg ms pl with filename := some fn, fileext := some fe, filepath := some pc }, pc)
-
-/-- the name of the combined `.tex` file: `_update_with_group` puts what is common to all members into the
-group's context, `MakeFilename` completes it, `Write._make_filename` builds the path -/
-def groupTexPath (cfg : Cfg) (gms : List (MFKey × Tpl)) (gname : Option String) (named : List OutCtx) :
-    Except Exc String :=
-  let g := (mfCall cfg.gmf.overwrite gms gname (nm (updateWithGroup { changed := some false } named {}))).1
-  match wmfCore cfg.outdir "output" g.dirname g.filename (some "tex") (some "tex") with
-  | .error e => .error e
-  | .ok (_, _, _, pt) => .ok pt
-
-/-- the values that `MapGroup` collects from the members -/
-def memberVals : List (Plot × (OutCtx × String)) → List (Option Bool) → List (Val C)
-  | x :: xs, f :: fs => ⟨.path x.2.2, x.1.name, { x.2.1 with changed := f }, none, false⟩ :: memberVals xs fs
-  | _, _ => []
 
 theorem memberStage_eq (conv : Conv C) (cfg : Cfg) (ms : List (MFKey × Tpl)) (w : World C) (pl : Plot)
     (on : OutCtx) (pc : String) (h : memberNamed cfg ms pl = .ok (on, pc)) :
